@@ -179,6 +179,43 @@ def run(ctx):
                f'`with self.mdib_lock`', fi=fi, witness=detail)
     ctx.floor('C07.R2', n_snap, 3, 'snapshot providers')
 
+    # ---------------------------------------------------------------- R4
+    # GetMdState / GetContextStates serialise the selected state containers after the lock is released; that is
+    # only a snapshot because the provider commit replaces state containers and never mutates a stored one.
+    from engine.flow import Resident
+    from .c02 import commit_closure, transaction_classes
+    from .c03 import INPLACE_MUTATORS
+    ctx.rule('C07.R4', 'the provider commit never mutates a stored state container in place (it replaces it)')
+    seen = set()
+    n_cl = 0
+    for cq in transaction_classes(repo):
+        for fi in commit_closure(repo, cq).values():
+            if fi.qual in seen:
+                continue
+            seen.add(fi.qual)
+            n_cl += 1
+            res = Resident(fi.node, extra_sources=lambda e: isinstance(e, ast.Attribute) and e.attr == 'old'
+                           and isinstance(e.value, ast.Name))
+
+            def is_state(e):
+                txt = unparse(e)
+                return 'descr' not in txt.lower() or 'state' in txt.lower()
+            bad = []
+            for n in walk_no_nested(fi.node):
+                if isinstance(n, ast.Call) and isinstance(n.func, ast.Attribute) and n.func.attr in INPLACE_MUTATORS \
+                        and res.is_resident(n.func.value) and 'state' in unparse(n.func.value).lower():
+                    bad.append(n)
+                tg = n.targets if isinstance(n, ast.Assign) else ([n.target] if isinstance(n, ast.AugAssign) else [])
+                for t in tg:
+                    if isinstance(t, ast.Attribute) and res.is_resident(t.value) and 'state' in unparse(t.value).lower():
+                        bad.append(n)
+            ctx.ob('C07.R4', f'{fi.name}: stored states immutable', not bad,
+                   f'{fi.cls.name}.{fi.name}: no stored state container is changed in place' if not bad else
+                   f'{fi.cls.name}.{fi.name}: {unparse(bad[0])[:80]} changes a state container that is stored in the MDIB; a '
+                   f'GetMdState / GetContextStates answer that selected it at version N is serialised with the content of '
+                   f'N+1', fi=fi, node=bad[0] if bad else None, witness={'resident_locals': sorted(res.tainted)})
+    ctx.floor('C07.R4', n_cl, 10, 'functions of the commit closure')
+
     # ---------------------------------------------------------------- R3
     tm = repo.func('sdc11073.mdib.providermdib.ProviderMdib._transaction_manager')
     g = cfg_of(tm)
@@ -265,6 +302,8 @@ SEEDS = [
     seed('writer releases mdib_lock before commit', 'C07.R3',
          ('src/sdc11073/mdib/providermdib.py', "        with self._tr_lock, self.mdib_lock:\n            try:\n                self.current_transaction",
           "        with self._tr_lock:\n            try:\n                self.current_transaction")),
+    seed('commit bumps the stored state instead of a copy', 'C07.R4',
+         ('src/sdc11073/mdib/transactions.py', "                if old_state is not None:\n                    new_state = old_state.mk_copy()", "                if old_state is not None:\n                    new_state = old_state")),
     seed('control: hoist data_model lookup', 'C07.R1',
          (_G, "        factory = self._sdc_device.msg_factory\n        response = data_model.msg_types.GetMdStateResponse()",
           "        response = data_model.msg_types.GetMdStateResponse()\n        factory = self._sdc_device.msg_factory"), control=True),
